@@ -88,7 +88,7 @@ def build(ctx, charts, bpm_set, stops_tag="#STOPS:;\n", selectable="YES", commen
     off = ctx.real("offset")
     Ls = []
     bp = []
-    for i, b in enumerate(BPM_SETS[bpm_set]):
+    for i, b in enumerate(BPM_SETS[bpm_set] if isinstance(bpm_set, str) else bpm_set):
         L = ctx.real("L%d" % i)
         ctx.assume(L > 0)
         Ls.append(L)
@@ -98,7 +98,7 @@ def build(ctx, charts, bpm_set, stops_tag="#STOPS:;\n", selectable="YES", commen
     for ci, (keys, pname, desc, diff, meter) in enumerate(charts):
         ctype = TYPES[keys] if isinstance(keys, int) else keys[1]  # (columns, chart type) for types the key count does not name
         keys = keys if isinstance(keys, int) else keys[0]
-        ms = [measure_rows(keys, n, placed) for n, placed in patterns(keys)[pname]]
+        ms = [measure_rows(keys, n, placed) for n, placed in (patterns(keys)[pname] if isinstance(pname, str) else pname)]
         text += chart_text(ctype, desc, diff, meter, ms, comments=comments)
     if header_comment:
         # comment lines in the header, one of them containing '#'
@@ -191,14 +191,56 @@ def ob_read(charts, bpm_set, ctx, stops_tag="#STOPS:;\n", selectable="YES", comm
     ctx.check("reference.well-formed-input", all(not c["ill_formed"] for c in d["charts"]), note="%s" % [c["ill_formed"] for c in d["charts"]])
     # a #BPMS beat such as 1.333 or 4.021 is a 3-decimal rendering of a grid position: the two readings (literal / grid) differ
     # by at most 0.0005 beat per change, so times are then compared within 0.001 beat of the summed beat lengths
-    tol = None if bpm_set in EXACT_SETS else sum(vars_["Ls"]) / 1000
+    exact = bpm_set in EXACT_SETS if isinstance(bpm_set, str) else all(float(b) * 8 == int(float(b) * 8) for b in bpm_set)
+    tol = None if exact else sum(vars_["Ls"]) / 1000
     check_charts(ctx, "read", sms, d, tol)
     check_header(ctx, "read", sms, d, vars_)
 
 
+def random_chart(rng):
+    """a generated chart: 1-4 measures of 4..192 rows, taps / mines / lifts / fakes / keysounds and holds / rolls closed later in their column"""
+    keys = rng.choice((3, 4, 4, 6, 7, 8))
+    nm = rng.randint(1, 4)
+    rows = [rng.choice((4, 8, 12, 16, 20, 24, 28, 32, 48, 64, 96, 192)) for _ in range(nm)]
+    placed = [dict() for _ in range(nm)]
+    cells = [(m, r) for m in range(nm) for r in range(rows[m])]
+    for c in rng.sample(range(keys), rng.randint(1, min(keys, 4))):
+        pos = sorted(rng.sample(cells, min(len(cells), rng.randint(1, 4))), key=lambda mr: (mr[0], F(mr[1], rows[mr[0]])))
+        i = 0
+        while i < len(pos):
+            m, r = pos[i]
+            if i + 1 < len(pos) and rng.random() < 0.4:
+                placed[m][(r, c)] = rng.choice("24")
+                m2, r2 = pos[i + 1]
+                placed[m2][(r2, c)] = "3"
+                i += 2
+            else:
+                placed[m][(r, c)] = rng.choice("11MLFK")
+                i += 1
+    return keys, [(rows[m], placed[m]) for m in range(nm)]
+
+
+def random_bpms(rng):
+    """#BPMS beats on the 1/8-beat grid (3-decimal numerals that are exact), listed in random order after beat 0"""
+    later = rng.sample([F(k, 8) for k in range(1, 16 * 8)], rng.randint(0, 3))
+    rng.shuffle(later)
+    return ["0.000"] + ["%.3f" % float(b) for b in later]
+
+
 def obligations(tier, seed):
+    import random
+
     quick = tier == "quick"
     obs = []
+    rng = random.Random(2000 + seed)
+    for k in range(6 if quick else 300):
+        charts = []
+        for ci in range(rng.choice((1, 1, 2))):
+            keys, ms = random_chart(rng)
+            charts.append((keys, ms, "g%d" % ci, rng.choice(("Beginner", "Easy", "Medium", "Hard", "Challenge", "Edit")), rng.randint(1, 20)))
+        bp = random_bpms(rng)
+        obs.append(Obligation("C02/read/generated%d" % k, partial(ob_read, charts, bp, comments=rng.random() < 0.3),
+                              bound="generated .sm (seed %d): %d chart(s) %s, #BPMS at beats %s with symbolic tempos" % (seed, len(charts), [(c[0], [m[0] for m in c[1]]) for c in charts], bp)))
     pnames = list(patterns(4))
     B = "charts %s; #BPMS at beats %s with symbolic tempos; #OFFSET, sample window symbolic"
     combos = []
